@@ -20,6 +20,9 @@ def build_binary(ctx, app):
     return out
 
 
+HANGS = [0]
+
+
 def run_filter_binary(ctx, binary, case, n):
     """One run of the built rtcmfilter over OS pipes; returns an event like the overlay test's."""
     d = ctx.path("bin%d" % n)
@@ -34,9 +37,11 @@ def run_filter_binary(ctx, binary, case, n):
     day1 = datetime.date.today().isoformat()
     p = subprocess.Popen([binary, "-c", cfg], cwd=d, stdin=subprocess.PIPE, stdout=subprocess.PIPE, stderr=subprocess.PIPE)
     import threading
-    outbuf = []
+    outbuf, errbuf = [], []
     t = threading.Thread(target=lambda: outbuf.append(p.stdout.read()))
     t.start()
+    t2 = threading.Thread(target=lambda: errbuf.append(p.stderr.read()))    # (a full stderr pipe must not block the program)
+    t2.start()
     i = 0
     chunk = case["chunk"] or 4096
     try:
@@ -57,7 +62,10 @@ def run_filter_binary(ctx, binary, case, n):
         p.kill()
         ret = "timeout"
     t.join(10)
-    err = p.stderr.read().decode(errors="replace")
+    t2.join(10)
+    err = (errbuf[0] if errbuf else b"").decode(errors="replace")
+    if ret == "timeout":
+        HANGS[0] += 1
     if "panic" in err or "goroutine " in err:
         ret = "crash: " + err[:300]
     day2 = datetime.date.today().isoformat()
@@ -98,6 +106,8 @@ def run(ctx, replay):
     binary = build_binary(ctx, "rtcmfilter")
     nbin = 60 if ctx.thorough() else 10
     for n, c in enumerate(caselist[:nbin]):
+        if HANGS[0] >= 3:
+            break           # three runs that did not end are enough: the others would each wait a minute to say the same
         events.append(run_filter_binary(ctx, binary, c, n))
     events = [e for e in events if not e["midnight"]]
     if not events:
